@@ -266,6 +266,42 @@ class UnitRun:
         return [r for r in self.results if r["status"] == "FAILURE" and r["cls"] in classes]
 
 
+def resolve_unwindset(u, loops, tier, defs):
+    allnames = [l[0] for l in loops]
+    items = []
+    for W in u["unwindset"]:
+        n = W["n"]
+        if isinstance(n, dict):
+            n = n.get(tier, n.get("quick"))
+        if isinstance(n, str):  # expression over defs, e.g. "CAP+1"
+            env = {}
+            for d in defs:
+                m = re.match(r"-D(\w+)=(\d+)$", d)
+                if m:
+                    env[m.group(1)] = int(m.group(2))
+            n = eval(n, {}, env)
+        if "loop" in W:       # literal loop name (library/stub functions), may be a pattern
+            names = [x for x in allnames if re.fullmatch(W["loop"], x)]
+            if not names:
+                if W.get("optional"):
+                    continue
+                raise ToolError("unwindset loop %s not in instrumented binary of %s" % (W["loop"], u["unit"]))
+        else:
+            try:
+                names = resolve_anchor(loops, W, "unwindset of " + u["unit"])
+            except ToolError:
+                if W.get("optional"):
+                    continue
+                raise
+            if not isinstance(names, list):
+                names = [names]
+        for nm in names:
+            items.append("%s:%d" % (nm, n))
+    if items:
+        return ["--unwindset", ",".join(items), "--unwinding-assertions"]
+    return []
+
+
 def build_unit(u, tier, workdir, cfg, extra_defs=(), tag="p"):
     """goto-cc + goto-instrument; returns (instrumented binary path, unwindset args, cmds)"""
     src = os.path.join(VERIF, "units", u["source"])
@@ -281,6 +317,17 @@ def build_unit(u, tier, workdir, cfg, extra_defs=(), tag="p"):
     rc, out, err, _ = sh(cmd, timeout=300)
     if rc != 0:
         raise ToolError("goto-cc failed for %s: %s" % (u["unit"], (out + err)[-3000:]))
+    if u.get("nodfcc"):
+        # harness-level pre/postcondition unit without any function or loop contract to bind: plain cbmc on the
+        # compiled harness (static initialisers of library tables are then applied by __CPROVER_initialize)
+        if u["enforce"] or u["replace"] or u["loops"]:
+            raise ToolError("unit %s: nodfcc is incompatible with contracts" % u["unit"])
+        igb = gb
+        uw = []
+        if u["unwindset"]:
+            rc, lo, le, _ = sh(["cbmc", igb, "--show-loops"], timeout=120)
+            uw = resolve_unwindset(u, parse_show_loops(lo), tier, defs)
+        return igb, uw, cmds
     gi = ["goto-instrument", "--dfcc", "harness"]
     for e in u["enforce"]:
         gi += ["--enforce-contract", e]
@@ -314,39 +361,7 @@ def build_unit(u, tier, workdir, cfg, extra_defs=(), tag="p"):
     uw = []
     if u["unwindset"]:
         rc, lo, le, _ = sh(["cbmc", igb, "--show-loops"], timeout=120)
-        loops = parse_show_loops(lo)
-        allnames = [l[0] for l in loops]
-        items = []
-        for W in u["unwindset"]:
-            n = W["n"]
-            if isinstance(n, dict):
-                n = n.get(tier, n.get("quick"))
-            if isinstance(n, str):  # expression over defs, e.g. "CAP+1"
-                env = {}
-                for d in defs:
-                    m = re.match(r"-D(\w+)=(\d+)$", d)
-                    if m:
-                        env[m.group(1)] = int(m.group(2))
-                n = eval(n, {}, env)
-            if "loop" in W:       # literal loop name (library/stub functions), may be a prefix pattern
-                names = [x for x in allnames if re.fullmatch(W["loop"], x)]
-                if not names:
-                    if W.get("optional"):
-                        continue
-                    raise ToolError("unwindset loop %s not in instrumented binary of %s" % (W["loop"], u["unit"]))
-            else:
-                try:
-                    names = resolve_anchor(loops, W, "unwindset of " + u["unit"])
-                except ToolError:
-                    if W.get("optional"):
-                        continue
-                    raise
-                if not isinstance(names, list):
-                    names = [names]
-            for nm in names:
-                items.append("%s:%d" % (nm, n))
-        if items:
-            uw = ["--unwindset", ",".join(items), "--unwinding-assertions"]
+        uw = resolve_unwindset(u, parse_show_loops(lo), tier, defs)
     return igb, uw, cmds
 
 
@@ -461,40 +476,70 @@ def run_unit(name, tier, workdir, cfg, extra_defs=(), tag="p"):
     tier) is run once per variant in parallel and the obligations are merged (ids suffixed @<variant>)."""
     u0 = load_unit(name)
     variants = u0.get("variants")
+    gen_skipped = []
+    if u0.get("generator"):
+        gdir = os.path.join(workdir, "gen_" + name)
+        rc, out, err, _ = sh(["python3", os.path.join(VERIF, u0["generator"]), gdir, REPO], timeout=300)
+        try:
+            gj = json.loads(out)
+        except Exception:
+            ur = UnitRun(u0, tier)
+            ur.reason = "generator %s failed: %s" % (u0["generator"], (err or out)[-500:])
+            return ur
+        variants = gj["variants"]
+        gen_skipped = gj.get("skipped", [])
+        if len(variants) < u0.get("min_variants", 1):
+            ur = UnitRun(u0, tier)
+            ur.reason = "generator produced only %d variants (expected >= %d)" % (len(variants), u0.get("min_variants", 1))
+            return ur
     if isinstance(variants, dict):
         variants = variants.get(tier, variants.get("quick"))
     if not variants:
         return run_unit1(name, tier, workdir, cfg, extra_defs, tag)
     t0 = time.time()
-    with ThreadPoolExecutor(max_workers=max(1, len(variants))) as ex:
-        subs = list(ex.map(lambda kv: run_unit1(name, tier, workdir, cfg, list(extra_defs) + list(kv[1]), "%s%d" % (tag, kv[0])), enumerate(variants)))
+    norm = []
+    for v in variants:
+        if isinstance(v, dict):
+            norm.append({"defs": list(v.get("defs", [])), "override": {k: v[k] for k in ("replace", "enforce", "functions") if k in v}, "label": v.get("label", "")})
+        else:
+            norm.append({"defs": list(v), "override": {}, "label": " ".join(v)})
+    with ThreadPoolExecutor(max_workers=max(1, min(len(norm), 64))) as ex:
+        subs = list(ex.map(lambda kv: run_unit1(name, tier, workdir, cfg, list(extra_defs) + kv[1]["defs"], "%s%d" % (tag, kv[0]), kv[1]["override"]), enumerate(norm)))
     ur = UnitRun(u0, tier)
-    ur.cmds = subs[0].cmds + ["(... the same pipeline for %d variants: %s)" % (len(variants), "; ".join(" ".join(v) for v in variants[:40]))]
+    ur.cmds = subs[0].cmds + ["(... the same pipeline for %d variants: %s)" % (len(norm), "; ".join(v["label"] for v in norm[:100]))]
     ur.backend = subs[0].backend
-    ur.variant_defs = {}
+    ur.generated = {"variants": [v["label"] for v in norm], "skipped": gen_skipped}
+    fns = []
     for k, su in enumerate(subs):
-        vt = "v%d" % k
-        ur.variant_defs[vt] = list(variants[k])
+        vt = norm[k]["label"] or ("v%d" % k)
+        for fn in norm[k]["override"].get("functions", []):
+            fns.append(fn)
         for r in su.results:
             r2 = dict(r)
             r2["id"] = "%s@%s" % (r["id"], vt)
-            r2["variant"] = list(variants[k])
+            r2["variant"] = norm[k]["defs"]
+            r2["variant_override"] = norm[k]["override"]
             ur.results.append(r2)
         ur.solver_s += su.solver_s
+    if fns:
+        ur.unit = dict(u0)
+        ur.unit["functions"] = list(u0["functions"]) + fns
     und = [(k, su) for k, su in enumerate(subs) if su.status == "undecided"]
     if any(su.status == "failed" for su in subs):
         ur.status = "failed"
     elif und:
         ur.status = "undecided"
-        ur.reason = "variant %s: %s" % (" ".join(variants[und[0][0]]), und[0][1].reason)
+        ur.reason = "variant %s: %s" % (norm[und[0][0]]["label"], und[0][1].reason)
     else:
         ur.status = "ok"
     ur.wall = time.time() - t0
     return ur
 
 
-def run_unit1(name, tier, workdir, cfg, extra_defs=(), tag="p"):
+def run_unit1(name, tier, workdir, cfg, extra_defs=(), tag="p", override=None):
     u = load_unit(name)
+    if override:
+        u.update(override)
     ur = UnitRun(u, tier)
     t0 = time.time()
     try:
@@ -665,8 +710,10 @@ def find_matching_property(results, target):
 def witness_and_replay(name, tier, workdir, cfg, failed, pid, extra_defs=()):
     """(variants: obligations are grouped by variant and each group is handled with that variant's defines)"""
     byvar = {}
+    ovr = {}
     for f in failed:
         byvar.setdefault(tuple(f.get("variant", ())), []).append(f)
+        ovr[tuple(f.get("variant", ()))] = f.get("variant_override") or {}
     if len(byvar) > 1 or (byvar and list(byvar.keys())[0]):
         outs = []
         for k, (var, fs) in enumerate(sorted(byvar.items())[:3]):
@@ -676,8 +723,9 @@ def witness_and_replay(name, tier, workdir, cfg, failed, pid, extra_defs=()):
                 f2["id"] = (f["id"] or "").split("@")[0]
                 f2["full_id"] = f["id"]
                 f2.pop("variant", None)
+                f2.pop("variant_override", None)
                 fs2.append(f2)
-            sub = witness_and_replay1(name, tier, workdir, cfg, fs2, pid, list(extra_defs) + list(var), tagx="w%d" % k)
+            sub = witness_and_replay1(name, tier, workdir, cfg, fs2, pid, list(extra_defs) + list(var), tagx="w%d" % k, override=ovr.get(var))
             for o in sub:
                 o["obligation"]["id"] = o["obligation"].get("full_id", o["obligation"]["id"])
             outs += sub
@@ -685,10 +733,12 @@ def witness_and_replay(name, tier, workdir, cfg, failed, pid, extra_defs=()):
     return witness_and_replay1(name, tier, workdir, cfg, failed, pid, extra_defs)
 
 
-def witness_and_replay1(name, tier, workdir, cfg, failed, pid, extra_defs=(), tagx="w"):
+def witness_and_replay1(name, tier, workdir, cfg, failed, pid, extra_defs=(), tagx="w", override=None):
     """For failed obligations of unit `name`: search a concrete input (witness build), write the replay
     file, run the native replay.  Returns list of dict(path, reproduced, obligation)."""
     u = load_unit(name)
+    if override:
+        u.update(override)
     outs = []
     wres = None
     wbin = None
